@@ -19,8 +19,9 @@ import (
 
 func init() {
 	Register(&Monitor{
-		ID:    "C10",
-		Level: "exploration",
+		ID:         "C10",
+		Level:      "exploration",
+		Exhaustive: []string{"chains (lengths 1-4)", "chainvals"},
 		Rule: "(a) exhaustive: all operator chains of length 1..4 over the 14 binary operators (14 + 196 + 2744 + 38416 sequences, thorough: + 537824 quintuples; quick: 20000 sampled quintuples), each in a plain variant and variants with unary minus signs and operands drawn from numbers, strings, paths, function calls, the element names div/mod/and/or, the wildcard *, names containing '-': hook parse tree vs reference parser; and, independent of any tree representation, the VALUE of every chain of length 1..4 over the 13 operators other than '|' with distinct numeric operands (so that different groupings give different values) vs the reference value; " +
 			"(b) for every chain and for generated expressions of all kinds: the token list written with no optional whitespace, with conventional spacing and with spaces/tabs/newlines between every pair of tokens must give one parse tree, and (on a document) one value; " +
 			"(c) every abbreviation (a, @a, ., .., //) expanded position by position: same parse tree and same delivery sequence. Non-trivial: the chain mixes at least two precedence levels, or the expression has >= 6 tokens; distinct by text.",
